@@ -377,17 +377,27 @@ func (gopt *GetOpt) Parse(args []string) ([]string, error) {
 		}
 	}
 
-	for _, option := range node.UnknownOptions {
-		// Check for unknown mode at the node that we want to validate
-		switch gopt.finalNode.unknownMode {
-		case Fail:
-			return nil, fmt.Errorf(text.MessageOnUnknown, option.Name)
-		case Warn:
-			fmt.Fprintf(Writer, text.WarningOnUnknown+"\n", option.Name)
+	// Unknown options and text are tracked per command level, walk from the
+	// root to the selected node so that nothing given before a command is lost.
+	chain := []*programTree{}
+	for n := node; n != nil; n = n.Parent {
+		chain = append([]*programTree{n}, chain...)
+	}
+	var remaining []string
+	for _, n := range chain {
+		for _, option := range n.UnknownOptions {
+			// Check for unknown mode at the level the option was given at
+			switch n.unknownMode {
+			case Fail:
+				return nil, fmt.Errorf(text.MessageOnUnknown, option.Name)
+			case Warn:
+				fmt.Fprintf(Writer, text.WarningOnUnknown+"\n", option.Name)
+			}
 		}
+		remaining = append(remaining, n.ChildText...)
 	}
 
-	return node.ChildText, nil
+	return remaining, nil
 }
 
 // Dispatch - Handles calling commands and subcommands after the call to Parse.
